@@ -4,6 +4,7 @@ import (
 	"context"
 	"fmt"
 	"io"
+	"sync"
 	"time"
 
 	goat "github.com/avos-io/goat"
@@ -90,4 +91,99 @@ func c01Reattach(r *Run) {
 			}
 		}
 	}
+}
+
+// c01Websocket: the pairing rounds over the library's websocket transport (the only shipped transport
+// that serialises envelopes to bytes): many callers at once, each with its own request of 2 to 16 KiB;
+// every caller gets F(its own request) and the handler ran exactly once per request.
+func c01Websocket(r *Run) {
+	if !r.Want("websocket") {
+		return
+	}
+	p, err := c19NewWsPair()
+	if err != nil {
+		r.Count("websocket.no_listener")
+		return
+	}
+	defer p.Close()
+	impl := &Impl{}
+	var mu sync.Mutex
+	ran := map[string]int{}
+	impl.SetUnary(func(ctx context.Context, req []byte) ([]byte, error) {
+		mu.Lock()
+		ran[string(req[:16])]++
+		mu.Unlock()
+		return unaryF(req), nil
+	})
+	srv := goat.NewServer("srv")
+	srv.RegisterService(&echoDesc, impl)
+	ctx, cancel := context.WithCancel(context.Background())
+	defer cancel()
+	served := make(chan error, 1)
+	go func() { served <- srv.Serve(ctx, goat.NewGoatOverWebsocket(p.srv)) }()
+	cc := goat.NewClientConn(goat.NewGoatOverWebsocket(p.cli), "c0", "srv")
+	defer cc.Close()
+	rng := r.Rand("c01.websocket")
+	rounds, callers := r.Scale(3, 40), 24
+	for round := 0; round < rounds && r.NumViolations() <= 4; round++ {
+		in := map[string]any{"topology": "client-websocket-server", "round": round, "concurrent_callers": callers, "request_bytes": "2048..16384"}
+		r.Progress("websocket", in)
+		reqs := make([][]byte, callers)
+		for i := range reqs {
+			b := make([]byte, 2048+rng.Intn(14*1024))
+			rng.Read(b)
+			copy(b, fmt.Sprintf("ws-%04d-%04d-----", round, i)[:16])
+			reqs[i] = b
+		}
+		type out struct {
+			got []byte
+			err error
+		}
+		outs := make([]out, callers)
+		var wg sync.WaitGroup
+		start := make(chan struct{})
+		for i := range reqs {
+			wg.Add(1)
+			go func(i int) {
+				defer wg.Done()
+				<-start
+				cctx, ccancel := context.WithTimeout(context.Background(), 2*hangTimeout)
+				defer ccancel()
+				outs[i].got, outs[i].err = callUnary(cctx, cc, reqs[i])
+			}(i)
+		}
+		close(start)
+		if !within(3*hangTimeout, wg.Wait) {
+			r.Violate("websocket.hang", "ops", "concurrent unary calls over the websocket transport did not return", in, goroutineDump(), nil)
+			return
+		}
+		for i := range reqs {
+			r.Eval(fmt.Sprintf("websocket/%d/%d", round, i), true)
+			if outs[i].err != nil || string(outs[i].got) != string(unaryF(reqs[i])) {
+				r.Violate("websocket.other", "ops", "a caller did not get the handler's reply to ITS request (concurrent callers, websocket transport)", in,
+					fmt.Sprintf("caller %d: err=%v reply=%s", i, outs[i].err, clipHex(outs[i].got)), "F(own request) = "+clipHex(unaryF(reqs[i])))
+				break
+			}
+			mu.Lock()
+			n := ran[string(reqs[i][:16])]
+			mu.Unlock()
+			if n != 1 {
+				r.Violate("websocket.once", "ops", "the handler did not run exactly once for a request", in, n, 1)
+				break
+			}
+		}
+		r.CountN("websocket.calls", callers)
+	}
+	cancel()
+	srv.Stop()
+	p.cli.CloseNow()
+	p.srv.CloseNow()
+	within(hangTimeout, func() { <-served })
+}
+
+func clipHex(b []byte) string {
+	if len(b) > 24 {
+		return fmt.Sprintf("%x…(%d bytes)", b[:24], len(b))
+	}
+	return fmt.Sprintf("%x", b)
 }
